@@ -1140,7 +1140,7 @@ def run(tier="quick", seed=0):
             evaluate(col, case)
             if time.time() - col.t0 > col.budget_s:
                 break
-        for case in sampled_view_cases(seed, 200 if tier == "quick" else 20000):
+        for case in sampled_view_cases(seed, 200 if tier == "quick" else 10000):
             if time.time() - col.t0 > col.budget_s:
                 break
             evaluate(col, case)
